@@ -116,8 +116,8 @@ def _pack_objects(T, cfg, log, valuation, touched, holder):
     return c, l_
 
 
-def build_one(repo, T, cfg, log, valuation, facade_cls):
-    """-> (None | 'raises ...', touched item names)"""
+def build_one(repo, T, cfg, log, valuation, facade_cls, inspect=None):
+    """-> (None | 'raises ...', touched item names); with `inspect`: (..., inspect(interpreter, facade)) on success"""
     touched = set()
     it = Interp(repo, max_depth=14)
     from .absint import BoundMethod
@@ -170,11 +170,12 @@ def build_one(repo, T, cfg, log, valuation, facade_cls):
             if isinstance(dev, Obj) and dev.cls is not None:
                 for member in ("name", "key", "unique_id"):
                     it.getattr(dev, member)
+        extra = inspect(it, fac) if inspect is not None else None
     except PyRaise as e:
-        return f"raises {e.what}", touched
+        return (f"raises {e.what}", touched) if inspect is None else (f"raises {e.what}", touched, None)
     except Undecided as e:
         raise AnalysisError(f"{facade_cls} on the model of ({cfg.stem}, {log.stem}), valuation {valuation}: {e}")
-    return None, touched
+    return (None, touched) if inspect is None else (None, touched, extra)
 
 
 _POOL_CTX = {}
@@ -253,3 +254,30 @@ def _label_sig(T, cfg, log, key):
         return "malformed"
     labels = g.get("items")
     return (g["type"], tuple(labels) if isinstance(labels, list) else None)
+
+
+def inventories(repo, T, valuation="mixed"):
+    """For the richest shipped (config, log) pair of every platform and both facades: the inventory the facade presents -
+    [(key, unique id, name, looked-up-by-key is the same object)] of every automation device, by interpretation."""
+    best = {}
+    for _p, cfg, log in T.combos():
+        n = len(set(cfg.keys()) | set(log.keys()))
+        if n > best.get(cfg.platform, (0,))[0]:
+            best[cfg.platform] = (n, cfg, log)
+
+    def inspect(it, fac):
+        out = []
+        devs = list(it.getattr(fac, "all_automation_devices"))
+        for d in devs:
+            if not (isinstance(d, Obj) and d.cls is not None):
+                continue
+            key = it.getattr(d, "key")
+            found = it.apply(it.getattr(fac, "get_device"), [key], {})
+            out.append((key, it.getattr(d, "unique_id"), it.getattr(d, "name"), found is d))
+        return out
+    res = {}
+    for plat, (_n, cfg, log) in sorted(best.items()):
+        for facade_cls in FACADES:
+            r, _t, inv = build_one(repo, T, cfg, log, valuation, facade_cls, inspect=inspect)
+            res[(plat, cfg.stem, log.stem, facade_cls)] = (r, inv)
+    return res
